@@ -329,12 +329,12 @@ class Index(object):
         self.t = None
         self.open(default_rule, rules)
 
-    def open(self, default_rule, rules, overwrite=False):
-        """rules: list of (anchor bytes, rule dict) in dict order."""
+    def open(self, default_rule, rules, overwrite=False, text=False):
+        """rules: list of (anchor bytes, rule dict) in dict order.  text: the anchors are given as str keys."""
         self.default_rule = default_rule
         d = {}
         for anchor, rule in rules:
-            d[anchor] = rule_regex(rule)
+            d[_as_text(anchor) if text else anchor] = rule_regex(rule)
         with warnings.catch_warnings():
             warnings.simplefilter("ignore")
             self.t = tt.Traph(folder=self.folder, default_webentity_creation_rule=rule_regex(default_rule),
@@ -483,17 +483,17 @@ def apply_op(ix, op):
                     source_page_count=op["k"] or None, pagination_token=op["token"])
             elif name == "Reopen":
                 ix.close()
-                ix.open(op["def"], op["rules"])
+                ix.open(op["def"], op["rules"], text=bool(op.get("text")))
             elif name == "Recreate":
                 # a new index object on the same folder with overwrite=True (memory: a new object)
                 ix.close()
-                ix.open(op["def"], op["rules"], overwrite=True)
+                ix.open(op["def"], op["rules"], overwrite=True, text=bool(op.get("text")))
             elif name == "ClearKeep":
                 t.clear()        # no arguments: the files are emptied, the RAM rules are kept as they are
             elif name == "Clear":
                 d = {}
                 for anchor, rule in op["rules"]:
-                    d[anchor] = rule_regex(rule)
+                    d[_as_text(anchor) if op.get("text") else anchor] = rule_regex(rule)
                 ix.default_rule = op["def"]
                 t.clear(default_webentity_creation_rule=rule_regex(op["def"]),
                         webentity_creation_rules=d)
